@@ -169,6 +169,14 @@ c.sig("Exception", "auth-provider-failed")
 c = contract(PS, "PushService._push_task", ["C09", "C08"])
 c.param("self", OBJ("PushService", inv=False)).param("snapshot", OBJ("EventSnapshot"))
 c.req("grpc-service", lambda S_: S_.I.assume_shape(S_.old.f(S_.a.self, "grpc"), OBJ("GRPCService", inv=False)) or z3.BoolVal(True))
+def _snapshot_domain(S_):
+    """the snapshot handed over by the collector: convert_snapshot's domain (C08)"""
+    from .c08_wire import _snapshot_domain as dom, _snapshot_shapes
+    _snapshot_shapes(S_)
+    return dom(S_)
+
+
+c.req("snapshot-as-collected", _snapshot_domain)
 c.result = NONE
 c.modifies = lambda S_: [("all",)]
 # a failure to send is contained on the worker (the future records it): it is an allowed outcome of the task
